@@ -45,22 +45,22 @@ CHECKS = {
  "C13": ("proptest generated triples of trees; metamorphic relations (regrouping, neutral elements, wrappers), each side on fresh objects and on one object asked repeatedly; thorough: libFuzzer+ASan target triple_c13; a second leg with SourceMapSource leaves whose maps are longer than their text",
          "20 law instances per triple compared on the text views and on per-byte attribution from map() and from the chunk stream.",
          "The 'only empty replacements' law is read together with C06 (the column may be refined)."),
- "C14": ("proptest generated pairs (same Spec or one edit apart) with observer histories on one operand, x optionally observed while under construction, pairs of maps sharing their payload; metamorphic: ==, hash and observers before/after; thorough: libFuzzer+ASan target pair_c14; trees holding a typed ConcatSource twice are built with shared reference-counted children on one side and separately allocated ones on the other; a twin whose raw leaves are built through another constructor spelling (from_static text at an unaligned address vs heap copy) compared by ==, SipHash, a write-boundary-sensitive hasher and every observer",
+ "C14": ("proptest generated pairs (same Spec or one edit apart) with observer histories on one operand, x optionally observed while under construction, pairs of maps sharing their payload; metamorphic: ==, hash and observers before/after; thorough: libFuzzer+ASan target pair_c14; trees holding a typed ConcatSource twice are built with shared reference-counted children on one side and separately allocated ones on the other; a twin whose raw leaves are built through another constructor spelling (from_static text at an unaligned address vs heap copy) compared by ==, SipHash, a write-boundary-sensitive hasher and every observer; one case in four with a twin built on a freshly started thread",
          "Equality/hash/clone coherence and history independence over every source type, typed and dyn.",
          "For trees containing a CachedSource, maps and streams are compared by attribution (C10's notion) rather than verbatim."),
- "C15": ("proptest generated SourceMap values and harness-written JSON documents; oracle: serde_json as independent parser; writers taking 1 / 7 / 4096 bytes per call; thorough: libFuzzer+ASan target json; format key names and JSON literals as string values",
+ "C15": ("proptest generated SourceMap values and harness-written JSON documents; oracle: serde_json as independent parser; writers taking 1 / 7 / 4096 bytes per call; thorough: libFuzzer+ASan target json; format key names and JSON literals as string values; shaped values also with one non-ASCII character",
          "to_json/to_writer output parsed by an independent parser; three parser entry points compared with each other and with the reference reading.",
          "Trusts serde_json."),
  "C16": ("proptest generated rope construction programs + exhaustive enumeration of small programs; oracle: flat String model (incl. byte_slice_unchecked inside its precondition and the iterators through std adaptors); thorough: libFuzzer+ASan target rope_prog",
          "Every observer of Rope compared with the String it stands for; all slice ranges of every generated rope; std's UB checks on (checked profile).",
          "Trusts model::rope_prog."),
- "C17": ("proptest generated mappings strings, mutated JSON bytes and wild source trees (every method, typed clones of every composite node) on two build profiles; thorough: libFuzzer+ASan targets decode/json/tree_prog; oracle: totality (no panic, parsers agree on accept/reject); documents framed by the XSSI guard, BOMs, sourceMappingURL comments and data: heads; wide trees (ropes of more than 16 / 32 pieces beneath ReplaceSource / CachedSource layers)",
+ "C17": ("proptest generated mappings strings, mutated JSON bytes and wild source trees (every method, typed clones of every composite node) on two build profiles; thorough: libFuzzer+ASan targets decode/json/tree_prog; oracle: totality (no panic, parsers agree on accept/reject); documents framed by the XSSI guard, BOMs, sourceMappingURL comments and data: heads; wide trees (ropes of more than 16 / 32 pieces beneath ReplaceSource / CachedSource layers); leg b also writes well-formed documents whose string fields hold hostile and shaped values",
          "Every public entry point is driven with in-domain but hostile input on the overflow-checked build and again on the release-semantics build; coverage-guided campaigns extend the byte-level legs in the thorough tier.",
          "A watchdog (300 s per case) turns a slow case into exit 2 (inconclusive), never into a violation; only a case whose threads are all asleep without consuming CPU time for 40 watchdog ticks (blocked for good, e.g. a lock taken twice) is reported as a violation of 'never hangs'; known finding W2 is tolerated only in its exact shape and signature."),
  "C18": ("generated (program, schedule) pairs under a harness-owned cooperative scheduler driven through cfg-guarded schedule points; random schedules plus exhaustive enumeration of all schedules with <=2 preemptions per generated program; an unscheduled really-parallel leg; shared trees built cold or stale; oracle: single-threaded twin, deadlock detection, write-once cache hook + identity of handed-out maps; thorough: libFuzzer+ASan target sched_prog; CloneMutate operation (a thread mutates and reads its own typed clone)",
          "The schedule is the generated input: real threads run strictly one at a time and switch only at the library's shared-state accesses, lock acquisitions and callbacks into a user-defined child source. Exhaustive for the bounded-preemption schedules of each explored program, exploration over programs.",
          "Atomicity is assumed below the granularity of the schedule points (inside DashMap, OnceLock, Mutex, Arc); weak-memory reorderings are out of reach (the crate uses SeqCst and locks only)."),
- "C19": ("the generators of C16, C01/C17 and C18 run with guarded precondition assertions before each of the 14 unsafe operations, std's unsafe-precondition checks, on two build profiles; thorough: libFuzzer targets rope_prog / tree_prog under AddressSanitizer; quick tier: the checking binary's allocator overwrites freed memory and moves on realloc, borrowed chunks are read after the call returned and must still be UTF-8 and reassemble",
+ "C19": ("the generators of C16, C01/C17 and C18 run with guarded precondition assertions before each of the 14 unsafe operations, std's unsafe-precondition checks, on two build profiles; thorough: libFuzzer targets rope_prog / tree_prog under AddressSanitizer; quick tier: the checking binary's allocator overwrites freed memory and moves on realloc, borrowed chunks are read after the call returned and must still be UTF-8 and reassemble; 16 guard bytes behind every heap block, checked when it is freed",
          "Every generated program respected every stated precondition; borrowed chunks, names and contents are kept until the stream call returned (and, for schedules, until all threads finished) and then read.",
          "Absence of undefined behaviour is not established by testing; Miri is outside this technique family and not used."),
  "C20": ("proptest generated one-edit pairs and shared-payload pairs filtered by an observable difference (maps compared as JSON text); cross-process / cross-thread hash comparison; doubled trees hashed with shared vs separately allocated children (address independence); every batch tree re-hashed with its raw leaves respelled (unaligned &'static str / heap copy) under SipHash and a write-boundary-sensitive hasher, raw leaves of 60-260 bytes in every batch",
